@@ -452,19 +452,12 @@ def make_fuzz_scheduler(cfg):
                     placements.append(Placement.create_task_placement(task))
                     continue
                 options = []
+                from copy import deepcopy
                 for strat in task.available_execution_strategies:
                     for pool in worker_pools.worker_pools:
-                        for w in pool.workers:
-                            tot = {}
-                            for res, q in w.resources.resources:
-                                tot[res.name] = tot.get(res.name, 0) + q + w.resources.get_allocated_quantity(res) * 0
-                            need = {}
-                            for res, q in strat.resources.resources:
-                                need[res.name] = need.get(res.name, 0) + q
-                            from workload import Resource
-                            if all(w.resources.get_total_quantity(Resource(name=n, _id="any")) >= q for n, q in need.items()):
-                                options.append((strat, pool))
-                                break
+                        # the strategy must fit some worker of the pool when that worker is empty (ids included)
+                        if any(deepcopy(w).can_accomodate_strategy(strat) for w in pool.workers):
+                            options.append((strat, pool))
                 if not options:
                     placements.append(Placement.create_task_placement(task))
                     continue
